@@ -135,6 +135,23 @@ def check(run):
                   'source m_bound_to, m_open, m_forwarder neutralised')
         fwr = [c for c in mv.calls() if (c.get('callee') or '').endswith('sink_forwarder::reset') and c.get('args') and q.is_this(c['args'][0])]
         run.check(bool(fwr), 'R4', 'move-repoints-forwarder', mv.norm + mv.sig, mv.loc(), 'the forwarder is not re-pointed at the new object', 'm_forwarder->reset(this)')
+    # pairing: whoever gives the registry entry up also forgets the endpoint, in the same breath
+    npair = 0
+    for fn in fx.repo_functions():
+        if fn.cls not in (T, U, A) or fn.cfg is None:
+            continue
+        ubs = [c for c in fn.calls() if (q.callee_name(c) or '') in (IO + '::unbind_socket', IO + '::unbind_udp_socket')]
+        if not ubs:
+            continue
+        run.touch(fn)
+        clr = [a.site for a in q.field_accesses(fn, {B + '::m_bound_to'}) if a.kind == 'assign' and q.is_this(q.access_root(a.node))]
+        for c in ubs:
+            npair += 1
+            run.check(bool(clr) and q.must_follow(fn, c, clr), 'R4', 'unbind-paired-with-clear', '%s: %s' % (fn.norm, q.callee_name(c).split('::')[-1]), fn.loc(c),
+                      '%s releases the registry entry but keeps m_bound_to on some path: the socket stays open and still claims an endpoint the registry now hands to someone else' % fn.norm,
+                      'm_bound_to is cleared on every path after the entry is released')
+    if npair < 3:
+        run.broke('fewer than 3 unbind call sites found in the socket classes')
     ac = fx.fn1(A + '::close', '(boost::system::error_code &)')
     tc = fx.fn1(T + '::close', '(boost::system::error_code &)')
     run.touch(ac)
